@@ -253,23 +253,29 @@ def batch(check: str, tier: str) -> int:
             if len(new_violation_lines) >= max_min:
                 new_violation_lines.append(f"VIOLATION property={check} replay=(not minimised; fingerprint {fp}, run index {violations[fp][0]['i']})")
                 continue
-            v = violations[fp][0]
-            tag = core.digest([fp, v["seed"]], 10)
-            vin = os.path.join(errdir, f"v-{tag}.json")
-            with open(vin, "w") as f:
-                json.dump({"case": v["case"], "fingerprint": fp, "i": v["i"], "seed": v["seed"], "verif_seed": seed}, f, default=core._default)
-            rpath = os.path.join(core.REPLAY_DIR, f"{check}-{v['seed']}-{tag}.json")
-            o2, e2 = run_workers([("min", [check, "--minimise", vin, "--out", rpath, "--tier", tier], child_env())], time.time() + 1800, errdir)
-            if not os.path.exists(rpath):
-                # fall back to the unminimised case as the replay file
-                with open(rpath, "w") as f:
-                    json.dump({"check": check, "property": check, "fingerprint": fp, "case": v["case"], "run_seed": v["seed"], "observed": {"detail": v.get("detail")}, "note": "minimiser failed: " + "; ".join(e2)[:500]}, f, indent=1, default=core._default)
-            o3, e3 = run_workers([("rep", [check, "--replay", rpath], child_env())], time.time() + 900, errdir)
-            rep = o3["rep"][-1] if o3["rep"] else {}
-            if rep.get("reproduced"):
-                new_violation_lines.append(f"VIOLATION property={check} replay={rpath}")
-            else:
-                replay_failures.append(f"fingerprint {fp} (run {v['i']}) did not reproduce from {rpath}: {rep or e3}")
+            reproduced_one = False
+            failures_here: list[str] = []
+            for v in violations[fp][:3]:  # a run that does not replay is not believed; the next one of the class is tried
+                tag = core.digest([fp, v["seed"]], 10)
+                vin = os.path.join(errdir, f"v-{tag}.json")
+                with open(vin, "w") as f:
+                    json.dump({"case": v["case"], "fingerprint": fp, "i": v["i"], "seed": v["seed"], "verif_seed": seed}, f, default=core._default)
+                rpath = os.path.join(core.REPLAY_DIR, f"{check}-{v['seed']}-{tag}.json")
+                o2, e2 = run_workers([("min", [check, "--minimise", vin, "--out", rpath, "--tier", tier], child_env())], time.time() + 1800, errdir)
+                if not os.path.exists(rpath):
+                    # fall back to the unminimised case as the replay file
+                    with open(rpath, "w") as f:
+                        json.dump({"check": check, "property": check, "fingerprint": fp, "case": v["case"], "run_seed": v["seed"], "observed": {"detail": v.get("detail")}, "note": "minimiser failed: " + "; ".join(e2)[:500]}, f, indent=1, default=core._default)
+                o3, e3 = run_workers([("rep", [check, "--replay", rpath], child_env())], time.time() + 900, errdir)
+                rep = o3["rep"][-1] if o3["rep"] else {}
+                if rep.get("reproduced"):
+                    new_violation_lines.append(f"VIOLATION property={check} replay={rpath}")
+                    reproduced_one = True
+                    break
+                else:
+                    failures_here.append(f"fingerprint {fp} (run {v['i']}) did not reproduce from {rpath}: {rep or e3}")
+            if not reproduced_one:
+                replay_failures.extend(failures_here)
 
         wall = time.time() - t0
         evals = len([m for m in main_runs.values() if m.get("verdict") != "harness_error"])
